@@ -14,6 +14,7 @@ mod u4;
 mod u5;
 mod u5c;
 mod u5e;
+mod u5f;
 mod u5d;
 mod u6;
 mod u6b;
@@ -59,6 +60,9 @@ fn main() {
     ("u5c", "run") => u5c::run(rest),
     ("u5c", "show") => u5c::show(rest),
     ("u5c", "replay") => u5c::replay(rest),
+    ("u5f", "find") => u5f::find(rest),
+    ("u5f", "show") => u5f::show(rest),
+    ("u5f", "replay") => u5f::replay(rest),
     ("u5e", "list") => u5e::list(rest),
     ("u5e", "run") => u5e::run(rest),
     ("u5e", "one") => u5e::one(rest),
